@@ -13,15 +13,16 @@ An ASF file has no separable tag region: `delete` is `save` with no tags and no 
 of the metadata are the four objects, empty (Content Description: five zero lengths; the other three:
 count 0), and a Padding Object without payload. -/
 
-/-- `delete` on a well-formed layout leaves the layout `L.after emptyPayloads 0`: foreign objects and
-the rest of the file untouched, all padding gone (the final Padding Object has no payload), the four
+/-- `delete` on a well-formed layout leaves the layout `L.after emptyPayloads 0`: foreign objects (but for
+the File Size field, which gets the new file length) and the rest of the file untouched, all padding gone (the final Padding Object has no payload), the four
 metadata objects hold nothing, and a fresh load of the file finds no tags -/
 theorem asf_delete_removes_tags (L : Asf.Layout) (h : L.OK) (hf : L.Fits Asf.emptyPayloads 0) :
     Asf.delete L.render = .ok (L.after Asf.emptyPayloads 0).render ∧
-      (L.after Asf.emptyPayloads 0).top = Asf.keptTop Asf.emptyPayloads L.top ++ [Asf.Item.pad []] ∧
+      (L.after Asf.emptyPayloads 0).top =
+        Asf.patchFP (L.after Asf.emptyPayloads 0).render.length (Asf.keptTop Asf.emptyPayloads L.top) ++ [Asf.Item.pad []] ∧
       Asf.parseFull (L.after Asf.emptyPayloads 0).render = .ok ((L.after Asf.emptyPayloads 0).top.map Asf.Item.toObj) ∧
       Asf.loadedTags ((L.after Asf.emptyPayloads 0).top.map Asf.Item.toObj) = [] :=
-  ⟨Asf.delete_layout L h hf.ext, rfl,
+  ⟨Asf.delete_layout L h hf, by rw [Asf.after_render_length L h]; exact Asf.after_top L _ 0,
     Asf.parseFull_layout _ (Asf.after_OK' L h Asf.emptyPayloads Asf.parses_empty 0 hf), Asf.loadedTags_after_delete L⟩
 
 /-- the payloads `delete` writes into the four objects parse to no tags at all -/
@@ -33,16 +34,15 @@ theorem asf_empty_objects_hold_nothing :
 /-- deleting again changes nothing -/
 theorem asf_delete_twice (L : Asf.Layout) (h : L.OK) (hf : L.Fits Asf.emptyPayloads 0) :
     ∃ out, Asf.delete L.render = .ok out ∧ Asf.delete out = .ok out := by
-  refine ⟨(L.after Asf.emptyPayloads 0).render, Asf.delete_layout L h hf.ext, ?_⟩
-  have := Asf.save_after_save L h [] Asf.Dist.empty Asf.distribute_nil Asf.emptyPayloads Asf.renders_empty 0 hf Asf.padZero
-  exact this
+  exact ⟨(L.after Asf.emptyPayloads 0).render, Asf.delete_layout L h hf,
+    Asf.save_after_save L h [] Asf.Dist.empty Asf.distribute_nil Asf.emptyPayloads Asf.renders_empty 0 hf Asf.padZero 0 rfl hf⟩
 
 /-- new tags can be saved afterwards: the deleted file is a well-formed layout, and saving tags that
 render gives the layout the save theorem describes — the four objects where `delete` left them, now
 holding the payloads, followed by the Padding Object -/
 theorem asf_save_after_delete (L : Asf.Layout) (h : L.OK) (hf : L.Fits Asf.emptyPayloads 0) (tags : List Asf.Tag) (d : Asf.Dist)
     (hd : Asf.distribute tags = .ok d) (P : Asf.Payloads) (hP : Asf.Renders d P) (pad : PadChoice)
-    (hfit : Asf.ExtFits (Asf.keptTop P (L.after Asf.emptyPayloads 0).top)) :
+    (hfit : (L.after Asf.emptyPayloads 0).Fits P (Asf.newPadding (L.after Asf.emptyPayloads 0) P pad)) :
     (L.after Asf.emptyPayloads 0).OK ∧
       Asf.save (L.after Asf.emptyPayloads 0).render tags pad =
         .ok ((L.after Asf.emptyPayloads 0).after P (Asf.newPadding (L.after Asf.emptyPayloads 0) P pad)).render := by
@@ -52,7 +52,8 @@ theorem asf_save_after_delete (L : Asf.Layout) (h : L.OK) (hf : L.Fits Asf.empty
 /-- the hypotheses are satisfiable -/
 example : Asf.exLayout.OK ∧ Asf.exLayout.Fits Asf.emptyPayloads 0 ∧ Asf.distribute Asf.exTags = .ok Asf.exDist ∧
     Asf.Renders Asf.exDist Asf.exPayloads ∧
-    Asf.ExtFits (Asf.keptTop Asf.exPayloads (Asf.exLayout.after Asf.emptyPayloads 0).top) := by
+    (Asf.exLayout.after Asf.emptyPayloads 0).Fits Asf.exPayloads
+      (Asf.newPadding (Asf.exLayout.after Asf.emptyPayloads 0) Asf.exPayloads .default) := by
   refine ⟨by decide +kernel, by decide +kernel, by decide +kernel, by decide +kernel, by decide +kernel⟩
 
 end Mutagen.C08
